@@ -1,5 +1,7 @@
 import Pendulum.Proofs.PD5
 import Pendulum.Proofs.IvRebuild
+import Pendulum.Proofs.PDGen
+import Pendulum.Proofs.PDGenRs
 /-! # C06 — Interval components are canonical and rebuild the end from the start
 
 Theorems about `Model/PreciseDiff.lean` (the repaired `precise_diff`, both implementations) and
@@ -516,5 +518,116 @@ example : ∃ r, (IntervalPD.mk true epA epC false).rebuild = .ok r ∧ r.z = ep
     r.instant = epC.v.instant :=
   iv_rebuild_value_rs epA epC false (.fixed 3600000000) 3600000000 (.fixed _) rfl rfl (by decide) rfl (by decide) rfl rfl
     (by decide) (by decide) (by decide) (by decide) (by decide) (by decide)
+
+/-! ### The model is the code: regenerated definitions
+
+`Pendulum.Gen.PreciseDiff` is produced from `src/pendulum/_helpers.py` on every run (tools/gen_precisediff.py): the
+integer layer of `precise_diff` (borrow cascade, month borrow with `DAYS_PER_MONTHS[int(is_leap(..))][..]`, year borrow,
+the signed result tuple, `total_days`) statement by statement in ONE definition `core`, and the plain logic of the
+object layer (`sign`, the zone-name block, condition and position of the UTC shift). These theorems re-check, against
+what the code says now, that the model `preciseDiffPy` the theorems above are about *is* that code: an edit to the
+source either keeps them provable or breaks the build. Hand-modelled and tied by the correspondence run only: `==`
+and `>` of `datetime` (`pyEq`, `pyGt`) and `d.replace(tzinfo=None) - d.utcoffset()` (`pyShift`). -/
+
+/-- the integer core as written in the source, applied to the fields of the ordered and UTC-shifted values, the two
+    `isinstance` flags and the sign, is the model's `decompose` scaled by the sign — for ALL integer field values
+    (no range hypothesis); `DateZero`: a `date` endpoint is encoded with zero time-of-day fields -/
+theorem precise_diff_core_source_eq_model (e1 e2 : E) (sign total : Int) (hz : PDGen.DateZero e1) :
+    Gen.PreciseDiff.core e1.isDt e2.isDt sign total e1.y e1.m e1.d e1.h e1.mi e1.s e1.us
+        e2.y e2.m e2.d e2.h e2.mi e2.s e2.us =
+      ((decompose dimPy e1 e2 total).scale sign).toList :=
+  PDGen.core_eq e1 e2 sign total hz
+
+/-- the logic of the object layer as written in the source: the sign set by the swap, the zero tuple of the
+    equality return, `total_days`, the zone-name block (= the model's `sameTz` on zone tags), and the UTC shift being
+    taken exactly for two datetimes with `not in_same_tz or total_days == 0` -/
+theorem precise_diff_shift_source_eq_model (sw dt1 dt2 same : Bool) (t1 t2 total y1 m1 d1 y2 m2 d2 : Int) :
+    Gen.PreciseDiff.sign_of sw = (if sw then -1 else 1) ∧
+    Gen.PreciseDiff.equal_result = PD.zero.toList ∧
+    Gen.PreciseDiff.total_days y1 m1 d1 y2 m2 d2 = Gen.day_number y2 m2 d2 - Gen.day_number y1 m1 d1 ∧
+    Gen.PreciseDiff.in_same_tz (PDGen.tzTruthy t1) (PDGen.tzTruthy t2) (PDGen.tzName t1) (PDGen.tzName t2) =
+      (decide (t1 = t2) && decide (t1 > 0)) ∧
+    Gen.PreciseDiff.shift_taken dt1 dt2 same total = (dt2 && dt1 && (!same || decide (total = 0))) :=
+  ⟨PDGen.sign_of_eq sw, PDGen.equal_result_eq, PDGen.total_days_eq y1 m1 d1 y2 m2 d2, PDGen.in_same_tz_eq t1 t2,
+   PDGen.shift_taken_eq dt1 dt2 same total⟩
+
+/-- the whole function: the generated pieces chained by `PDGen.sourcePreciseDiff` (equality test, swap, `total_days` on
+    the unshifted fields, zone names, shift, core) compute the model `preciseDiffPy` for every pair of endpoints -/
+theorem precise_diff_source_eq_model (a b : E) (ha : PDGen.DateZero a) (hb : PDGen.DateZero b) :
+    (preciseDiffPy a b).toList = PDGen.sourcePreciseDiff a b :=
+  (PDGen.source_eq_model a b ha hb).symm
+
+/-- the statements recorded verbatim (tzinfo extraction and the naive/aware guard; the body of the UTC shift) are the
+    ones the model was written against -/
+theorem precise_diff_object_layer_pinned :
+    Gen.PreciseDiff.preludeSource = PDGen.expectedPrelude ∧ Gen.PreciseDiff.shiftSource = PDGen.expectedShiftBody :=
+  ⟨PDGen.prelude_pinned, PDGen.shift_body_pinned⟩
+
+/-! non-vacuity: the generated core on the F8 pair (2021-05-02 → 2021-06-01: 30 days), on a borrow through every unit
+(2024-03-31T00:00:00.000000 → 2024-05-01T... minus 1 µs) and on a date/datetime pair; `DateZero` holds for the examples -/
+example : Gen.PreciseDiff.core true true 1 30 2021 5 2 0 0 0 0 2021 6 1 0 0 0 0 = [0, 0, 30, 0, 0, 0, 0, 30] := by decide
+example : Gen.PreciseDiff.core true true (-1) 30 2024 3 31 0 0 0 1 2024 4 30 0 0 0 0 = [0, 0, -29, -23, -59, -59, -999999, -30] := by
+  decide
+example : Gen.PreciseDiff.core false true 1 366 2023 2 28 0 0 0 0 2024 2 29 13 0 0 5 = [1, 0, 1, 13, 0, 0, 5, 366] := by decide
+example : PDGen.DateZero ex1 ∧ PDGen.DateZero ex2 ∧ PDGen.sourcePreciseDiff ex1 ex2 = [0, 0, 30, 0, 0, 0, 0, 30] ∧
+    PDGen.sourcePreciseDiff ex4 ex3 = [0, 0, 0, -23, -15, 0, 0, 0] ∧
+    Gen.PreciseDiff.shift_taken true true true 0 = true ∧ Gen.PreciseDiff.shift_taken true true true 1 = false ∧
+    Gen.PreciseDiff.in_same_tz true true (some 7) (some 7) = true ∧ Gen.PreciseDiff.in_same_tz true true none none = false := by
+  refine ⟨?_, ?_, ?_, ?_, ?_, ?_, ?_, ?_⟩
+  · intro h; exact absurd h (by decide)
+  · intro h; exact absurd h (by decide)
+  all_goals decide
+
+/-! ### … and the compiled twin (`rust/src/python/helpers.rs`, tools/gen_rust_pd.py → `Pendulum.Gen.RsPreciseDiff`)
+
+Translated: `in_same_tz`, `total_days`, condition and position of `shift_to_utc()` in both endpoint blocks, the unix time
+`shift_to_utc` hands to `local_time`, and — as ONE definition `core` — everything from `if dtinfo1 > dtinfo2 {` (sign,
+exchange of the structs, `total_days = -total_days`) to `Ok(PreciseDiff { … })`. Fixed-width integers are rendered as
+`Int` (no overflow for years 1..9999, an assumption of the evidence). Hand-modelled: pyo3 field extraction,
+`helpers::local_time` (C15), the derived tuple ordering (source pinned). -/
+
+/-- the integer core of the compiled function as written in the source is the tail of the model `preciseDiffRs`, for ALL
+    integer field values and both orders -/
+theorem precise_diff_rs_core_source_eq_model (a b : E) (total : Int) :
+    Gen.RsPreciseDiff.core (lexLt b.key a.key) total a.y a.m a.d a.h a.mi a.s a.us b.y b.m b.d b.h b.mi b.s b.us =
+      (let sw := lexLt b.key a.key
+       let d1 := if sw then b else a
+       let d2 := if sw then a else b
+       let sign : Int := if sw then -1 else 1
+       let total := if sw then -total else total
+       let (dd0, h, mi, s, us) := timeDiff d1 d2
+       let (yd, md, dd) := dateDiff dimRs d1.y d1.m d1.d d2.y d2.m d2.d dd0
+       PD.scale sign ⟨yd, md, dd, h, mi, s, us, total⟩).toList :=
+  PDGen.rs_core_eq a b total
+
+/-- the whole compiled function: the generated pieces chained by `PDGen.sourcePreciseDiffRs` compute the model
+    `preciseDiffRs` for every pair of endpoints (no hypothesis) -/
+theorem precise_diff_rs_source_eq_model (a b : E) :
+    (preciseDiffRs a b).toList = PDGen.sourcePreciseDiffRs a b :=
+  (PDGen.source_eq_model_rs a b).symm
+
+/-- zone-name test, `total_days`, shift conditions, shift timestamp, and the pinned object-level statements -/
+theorem precise_diff_rs_object_layer_source_eq_model (t1 t2 y1 m1 d1 y2 m2 d2 off total : Int) (dt same : Bool) (e : E) :
+    Gen.RsPreciseDiff.in_same_tz (PDGen.tzName t1) (PDGen.tzName t2) = (decide (t1 = t2) && decide (t1 > 0)) ∧
+    Gen.RsPreciseDiff.total_days y1 m1 d1 y2 m2 d2 = Rs.day_number y2 m2 d2 - Rs.day_number y1 m1 d1 ∧
+    Gen.RsPreciseDiff.shift_taken_1 dt same off total = (dt && ((!same && decide (off ≠ 0)) || decide (total = 0))) ∧
+    Gen.RsPreciseDiff.shift_taken_2 dt same off total = (dt && ((!same && decide (off ≠ 0)) || decide (total = 0))) ∧
+    rsShift e = (let (y, m, d, h, mi, s) := LocalTime.localTime true LocalTime.rsTbl
+                    (Gen.RsPreciseDiff.shift_timestamp e.y e.m e.d e.h e.mi e.s e.off) 0
+                 { e with y := y, m := m, d := d, h := h, mi := mi, s := s, off := 0 }) ∧
+    Gen.RsPreciseDiff.preludeSource = PDGen.expectedRsPrelude ∧
+    Gen.RsPreciseDiff.endpointSource_1 = PDGen.expectedRsEndpoint1 ∧
+    Gen.RsPreciseDiff.endpointSource_2 = PDGen.expectedRsEndpoint2 ∧
+    Gen.RsPreciseDiff.shiftSource = PDGen.expectedRsShift ∧ Gen.RsPreciseDiff.cmpSource = PDGen.expectedRsCmp :=
+  ⟨PDGen.rs_in_same_tz_eq t1 t2, PDGen.rs_total_days_eq y1 m1 d1 y2 m2 d2, (PDGen.rs_shift_taken_eq dt same off total).1,
+   (PDGen.rs_shift_taken_eq dt same off total).2, PDGen.rs_shift_eq e, PDGen.rs_verbatim_pinned⟩
+
+/-! non-vacuity: the generated compiled core on the F8 pair in both orders, and the assembled function on the
+fixed-offset pair `ex3`/`ex4` (shifted to UTC: Feb 28 23:30Z → Mar 1 22:45Z) -/
+example : Gen.RsPreciseDiff.core false 30 2021 5 2 0 0 0 0 2021 6 1 0 0 0 0 = [0, 0, 30, 0, 0, 0, 0, 30] ∧
+    Gen.RsPreciseDiff.core true (-30) 2021 6 1 0 0 0 0 2021 5 2 0 0 0 0 = [0, 0, -30, 0, 0, 0, 0, -30] := by decide
+example : PDGen.sourcePreciseDiffRs ex3 ex4 = [0, 0, 0, 23, 15, 0, 0, 0] ∧
+    PDGen.sourcePreciseDiffRs ex4 ex3 = [0, 0, 0, -23, -15, 0, 0, 0] ∧
+    Gen.RsPreciseDiff.shift_timestamp 2021 3 1 0 30 0 3600 = 1614555000 := by decide +kernel
 
 end Pendulum.Props.C06
